@@ -265,7 +265,12 @@ class CallMixin:
         if key in self._defaults_memo:
             return self._defaults_memo[key]
         dfr = Frame(None, fi.module, captured or {}, ())
-        v = self.eval(d, dfr, self.module_state(fi.module))
+        saved = self._cur_fn
+        self._cur_fn = None
+        try:
+            v = self.eval(d, dfr, self.module_state(fi.module))
+        finally:
+            self._cur_fn = saved
         self._defaults_memo[key] = v
         return v
 
@@ -404,7 +409,7 @@ class CallMixin:
             elemv = self.iter_elem(recv.args[0], site)
             self.effect("dask-map", site, st, fr, node=recv, func=f)
             r = self.call(f, [elemv] + list(pos[1:]), kw, st, fr, site)
-            n = self.mk("BagMap", (recv, self.freeze(self.res(r, st), st)), None, site)
+            n = self.mk("BagMap", (recv, self.snapshot(r, st)), None, site)
             return n
         if recv.op in ("Bag", "BagMap") and name not in ("map", "compute"):
             self.effect("dask-combinator", site, st, fr, node=recv, name=name)
